@@ -75,6 +75,25 @@ Theorem C19_escape_split_refuted :
 Proof. exact escape_split_refuted. Qed.
 
 
+(** the formatter's end_loc (output side of the glyph map): after 54c7366 the column is the
+    true column clamped at 65535 (exact up to 65535, never beyond the true place); the old
+    code wrapped to 0; the clamp is the remaining 16-bit limit *)
+Theorem C19_end_loc_col_clamped : forall cs,
+  col (end_loc true cs) = N.min (out_true_col cs) U16MAX /\
+  col (end_loc true cs) <= out_true_col cs /\
+  (out_true_col cs <= U16MAX -> col (end_loc true cs) = out_true_col cs).
+Proof. exact end_loc_col_clamped. Qed.
+Theorem C19_end_loc_others_exact : forall fixed cs,
+  nlen (filter is_nl cs) <= U16MAX -> nlen cs <= U32MAX -> seg_len cs <= U32MAX ->
+  line (end_loc fixed cs) = nlen (filter is_nl cs) /\ char_pos (end_loc fixed cs) = nlen cs /\
+  byte_pos (end_loc fixed cs) = seg_len cs.
+Proof. exact end_loc_others_exact. Qed.
+Theorem C19_end_loc_wrap_refuted_pre : exists cs, out_true_col cs = 65536 /\ col (end_loc false cs) = 0.
+Proof. exact end_loc_wrap_refuted_pre. Qed.
+Theorem C19_end_loc_saturation_refuted :
+  exists cs, col (end_loc true cs) = 65535 /\ col (end_loc true cs) <> out_true_col cs.
+Proof. exact end_loc_saturation_refuted. Qed.
+
 (** non-vacuity: "é", CR LF, "x" lexed as three tokens *)
 Example C19_nonvacuous :
   let i : input := [[(2, COther)]; [(1, CCr); (1, CNl)]; [(1, COther)]] in
@@ -101,3 +120,7 @@ Print Assumptions C19_end_to_sound.
 Print Assumptions C19_guard_excludes_saturation.
 Print Assumptions C19_loc_spec_guarded.
 Print Assumptions C19_lexer_asserts_hold_guarded.
+Print Assumptions C19_end_loc_col_clamped.
+Print Assumptions C19_end_loc_others_exact.
+Print Assumptions C19_end_loc_wrap_refuted_pre.
+Print Assumptions C19_end_loc_saturation_refuted.
